@@ -26,11 +26,12 @@ Definition shape (p : pc) : Z :=
   | PS_rootpush => 7 | PC_set _ => 8 | PU_rmw => 9 | PR_rmw _ => 10 | PR_flags _ => 11 | PR_pend _ => 12 | PR_wake _ => 13
   | PW_lock _ => 14 | PW_susp _ => 15 | PW_flags _ => 16 | PW_pend _ => 17 | PW_latch _ => 18 | PW_call _ _ => 19
   | PW_incall _ => 20 | PW_post _ => 21 | PW_post2 _ => 22 | PW_unlock _ => 23 | PW_xor _ => 24 | PW_fin _ => 25
+  | PA_rmw _ => 26 | PA_role _ => 27 | PW_inst _ => 28 | PA_inst _ => 29
   end.
 
 (* one model action of a thread with what the recording says about it.
    m_kind: 0 AStep; 1 ABegin (CMerge a1 a2); 2 ABegin (CWorker a1); 3 ABegin CSuspend; 4 ABegin (CResume a1);
-           5 ABegin (CCancel a1); 6 ABegin (CWake a1).
+           5 ABegin (CCancel a1); 6 ABegin (CWake a1); 7 ABegin (CActivate a1).
    m_prew / m_prev: the value the implementation observed before the action: 0 nothing, 1 ds_pending_data = m_prev,
            2 dq_state = m_prev, 3 the cancel flag (m_prev <> 0).
    m_sh: shape of the thread's program point after the action.
@@ -65,6 +66,7 @@ Definition call_of (m : mact) : option call :=
   else if m_kind m =? 4 then Some (CResume (m_a1 m))
   else if m_kind m =? 5 then Some (CCancel (m_a1 m))
   else if m_kind m =? 6 then Some (CWake (m_a1 m))
+  else if m_kind m =? 7 then Some (CActivate (m_a1 m))
   else None.
 
 Definition try_act (c : cfg) (s : gst) (a : sact) : option gst :=
@@ -92,28 +94,36 @@ Definition is_obs (m : mact) : bool :=
 
 (* among the first w distinct threads of the preferred order: the first whose next action is enabled with the recorded
    outcome (only_obs: only observations are considered) *)
-Fixpoint pick (c : cfg) (only_obs : bool) (s : gst) (qs : list (Z * list sact)) (ord : list Z) (seen : list Z) (w : nat) {struct ord}
+Fixpoint pick (c : cfg) (only_obs : bool) (s : gst) (qs : list (Z * list sact)) (ord : list Z) (seen : list Z) (w d : nat) {struct ord}
     : option (Z * gst) :=
-  match w, ord with
-  | O, _ | _, [] => None
-  | S w', t :: r =>
-      if existsb (Z.eqb t) seen then pick c only_obs s qs r seen w
+  match w, d, ord with
+  | O, _, _ | _, O, _ | _, _, [] => None
+  | S w', S d', t :: r =>
+      if existsb (Z.eqb t) seen then pick c only_obs s qs r seen w d'
       else match lookup t qs with
            | a :: _ => match (if negb only_obs || is_obs (s_act a) then try_act c s a else None) with
                        | Some s' => Some (t, s')
-                       | None => pick c only_obs s qs r (t :: seen) w'
+                       | None => pick c only_obs s qs r (t :: seen) w' d'
                        end
-           | [] => pick c only_obs s qs r (t :: seen) w'
+           | [] => pick c only_obs s qs r (t :: seen) w' d'
            end
   end.
-Definition pick2 (c : cfg) (s : gst) (qs : list (Z * list sact)) (ord : list Z) (w : nat) : option (Z * gst) :=
-  match pick c true s qs ord [] w with Some r => Some r | None => pick c false s qs ord [] w end.
+(* look a little ahead in the preferred order first (stamp inversions are local); only when nothing is enabled there, further *)
+Fixpoint pick2 (c : cfg) (s : gst) (qs : list (Z * list sact)) (ord : list Z) (w : nat) (depths : list nat) : option (Z * gst) :=
+  match depths with
+  | [] => None
+  | d :: ds =>
+      match pick c true s qs ord [] w d with
+      | Some r => Some r
+      | None => match pick c false s qs ord [] w d with Some r => Some r | None => pick2 c s qs ord w ds end
+      end
+  end.
 
 (* ------------------------------------------------------------------ the invariant, as a boolean *)
 Definition locked_b (p : pc) : bool :=
   match p with
-  | PW_susp _ | PW_flags _ | PW_pend _ | PW_latch _ | PW_call _ _ | PW_incall _ | PW_post _ | PW_post2 _ | PW_unlock _
-  | PW_xor _ | PW_fin _ => true
+  | PW_inst _ | PW_susp _ | PW_flags _ | PW_pend _ | PW_latch _ | PW_call _ _ | PW_incall _ | PW_post _ | PW_post2 _
+  | PW_unlock _ | PW_xor _ | PW_fin _ => true
   | _ => false
   end.
 Definition token_b (p : pc) : bool := locked_b p || match p with PW_lock _ | PS_rootpush => true | _ => false end.
@@ -124,13 +134,14 @@ Definition examined_b (p : pc) : bool :=
 Definition OWNV := 18014398509481984 + 2199023255552 + 2147483648.
 Definition owned_b (p : pc) : bool :=
   match p with
-  | PW_susp o | PW_flags o | PW_pend o | PW_latch o | PW_call o _ | PW_incall o | PW_post o | PW_post2 o | PW_unlock o
-  | PW_xor o | PW_fin o => o =? OWNV
+  | PW_inst o | PW_susp o | PW_flags o | PW_pend o | PW_latch o | PW_call o _ | PW_incall o | PW_post o | PW_post2 o
+  | PW_unlock o | PW_xor o | PW_fin o => o =? OWNV
   | _ => true
   end.
 Definition qos_b (p : pc) : bool :=
   match p with
-  | PM_flags _ q | PM_op _ q | PS_flags q | PS_pend q | PS_wake q | PC_set q | PR_rmw q | PR_flags q | PR_pend q | PR_wake q =>
+  | PM_flags _ q | PM_op _ q | PS_flags q | PS_pend q | PS_wake q | PC_set q | PR_rmw q | PR_flags q | PR_pend q | PR_wake q
+  | PA_rmw q | PA_role q | PA_inst q =>
       (0 <=? q) && (q <? 8)
   | _ => true
   end.
@@ -156,10 +167,12 @@ Definition data_b (k : dkind) (pe la : Z) (me dr de : list Z) (ca : bool) : bool
       ((pe =? hd 0 me) || ((pe =? 0) && ((la =? hd 0 me) || ((la =? 0) && (hd 0 de =? hd 0 me)))))
   end.
 
+Definition hi_ok_b (h : Z) : bool := (h mod 8 =? 0) || (h mod 8 =? 1) || (h mod 8 =? 3).
+
 Definition inv_b (c : cfg) (L : list Z) (s : gst) : bool :=
   let r := dec (st s) in
   (0 <=? st s) && (st s <? 18446744073709551616) &&
-  (f_tr r =? 0) && (f_em r =? 0) && (f_pb r =? 0) && (f_hi r mod 8 =? 0) && (f_role r <? 2) &&
+  (f_tr r =? 0) && (f_em r =? 0) && (f_pb r =? 0) && hi_ok_b (f_hi r) && (f_role r <? 2) &&
   Bool.eqb (f_enq r =? 1) (match token s with None => false | _ => true end) &&
   (rootq s =? match token s with Some None => 1 | _ => 0 end) &&
   (match token s with
@@ -182,29 +195,30 @@ Definition inv_b (c : cfg) (L : list Z) (s : gst) : bool :=
    | Some a, Some b => a =? b | None, None => true | _, _ => false end) &&
   forallb (thread_b s) L.
 
-Fixpoint sched (c : cfg) (L : list Z) (fuel : nat) (w : nat) (s : gst) (qs : list (Z * list sact)) (ord : list Z) (done : Z) (ok : bool)
+Fixpoint sched (c : cfg) (L : list Z) (depths : list nat) (fuel : nat) (w : nat) (s : gst) (qs : list (Z * list sact)) (ord : list Z) (done : Z) (ok : bool)
     : gst * Z * list Z * bool * list (Z * list sact) :=
   match fuel with
   | O => (s, done, ord, ok, qs)
   | S f =>
       match ord with
       | [] => (s, done, [], ok, qs)
-      | _ => match pick2 c s qs ord w with
-             | Some (t, s') => sched c L f w s' (pop_q t qs) (remove_first t ord) (done + 1) (ok && inv_b c L s')
+      | _ => match pick2 c s qs ord w depths with
+             | Some (t, s') => sched c L depths f w s' (pop_q t qs) (remove_first t ord) (done + 1) (ok && inv_b c L s')
              | None => (s, done, ord, ok, qs)
              end
       end
   end.
 
-(* the state the replay starts from: the source at rest with the recorded word (activated, installed, unlocked, not
-   enqueued, not suspended; a stale DIRTY / max-qos is allowed) and the recorded ds_pending_data = 0 *)
-Definition init_from (w : Z) : gst :=
-  {| st := w; pend := 0; cancelled := false; rootq := 0; pcs := fun _ => Idle; token := None; wakers := []; rwakers := [];
+(* the state the replay starts from: the source at rest with the recorded word (unlocked, not enqueued; active and
+   installed, or still inactive as created; a stale DIRTY / max-qos is allowed) and ds_pending_data = 0 *)
+Definition init_from (w : Z) (inst : bool) : gst :=
+  {| st := w; pend := 0; cancelled := false; installed := inst; rootq := 0; pcs := fun _ => Idle; token := None; wakers := [];
+     rwakers := [];
      latched := 0; running := None; merged := []; dropped := []; delivered := [] |}.
 Definition init_word_ok (w : Z) : bool :=
   let r := dec w in
   (0 <=? w) && (w <? 18446744073709551616) && (f_owner r =? 0) && (f_tr r =? 0) && (f_enq r =? 0) && (f_role r <? 2) &&
-  (f_em r =? 0) && (f_pb r =? 0) && (f_wq r =? 4095) && (f_ib r =? 0) && (f_hi r =? 0).
+  (f_em r =? 0) && (f_pb r =? 0) && (f_wq r =? 4095) && (f_ib r =? 0) && hi_ok_b (f_hi r).
 
 Definition all_idle (s : gst) (tids : list Z) : bool := forallb (fun t => match pcs s t with Idle => true | _ => false end) tids.
 Definition token_code (s : gst) : Z := match token s with None => 0 | Some None => 1 | Some (Some _) => 2 end.
@@ -212,10 +226,10 @@ Definition token_code (s : gst) : Z := match token s with None => 0 | Some None 
 (* result: [actions executed; actions left; dq_state; ds_pending_data; rootq; all threads idle; invariant held on every
    state (and the start word was admissible); token (0 none / 1 in the target queue / 2 a thread); cancelled; handler calls;
    merges applied; next stuck thread or -1; shape of its program point; how many of its actions are left] *)
-Definition replay (c : cfg) (w0 : Z) (w : nat) (qs : list (Z * list sact)) (ord : list Z) : list Z :=
+Definition replay (c : cfg) (w0 : Z) (inst : bool) (w : nat) (depths : list nat) (fb : bool) (qs : list (Z * list sact)) (ord : list Z) : list Z :=
   let L := map fst qs in
-  let s0 := init_from w0 in
-  let '(s, done, rest, ok, qs') := sched c L (S (length ord)) w s0 qs ord 0 (init_word_ok w0 && inv_b c L s0) in
+  let s0 := init_from w0 inst in
+  let '(s, done, rest, ok, qs') := sched c L (if fb then depths ++ [length ord] else depths) (S (length ord)) w s0 qs ord 0 (init_word_ok w0 && inv_b c L s0) in
   [done; Z.of_nat (length rest); st s; pend s; rootq s; b2z (all_idle s L); b2z ok; token_code s; b2z (cancelled s);
    Z.of_nat (length (delivered s)); Z.of_nat (length (merged s)); match rest with t :: _ => t | [] => -1 end;
    match rest with t :: _ => shape (pcs s t) | [] => -1 end;
